@@ -23,6 +23,21 @@ func c15Gen(r *gen.Rng, tier string, idx int) interface{} {
 		c.Front = "pb"
 	}
 	c.P = gen.RandomAMOProblem(r, 10, c.Front == "pb")
+	if c.Front == "slicenb" && r.Chance(1, 5) {
+		// any CNF, not only those built around cliques: unit clauses, problems decided (possibly refuted) at parse time,
+		// repeated literals, tautologies, unused variables
+		cnf, n := gen.RandomCNF(r, gen.CNFOpts{MinVars: 1, MaxVars: 10, MaxLen: 4, Weird: true})
+		var c2 [][]int
+		for _, cl := range cnf {
+			if len(cl) > 0 {
+				c2 = append(c2, cl)
+			}
+		}
+		if mv := MaxVarCNF(c2); mv > n {
+			n = mv
+		}
+		c.P = ref.CNFToProblem(c2, n)
+	}
 	if r.Chance(1, 3) && c.P.N > 0 {
 		c.P.HasCost = true
 		c.P.CostLits, c.P.CostW = gen.RandomCost(r, c.P.N, 4, false, false)
@@ -145,7 +160,7 @@ func init() {
 		New:      func() interface{} { return &C15Case{} },
 		Run:      c15Run,
 		Setup:    func(string) { InstallSeqHooks() },
-		Rule: "random problems over 3..10 variables rich in binary clauses: 1..3 complete or incomplete cliques of 2..5 (mostly negative, sometimes mixed-polarity) literals written in either literal order, optionally with the at-least-one clause, binary clauses in no clique, repeated binary clauses, longer clauses, and (1 in 4, through ParsePBConstrs) cardinality and PB constraints; the problem is built twice, DetectAtMostOne runs on one copy, and both are evaluated through the public Clause accessors under every assignment; then Solve, CountModels and Minimize on detected copies are compared with the reference. " +
+		Rule: "random problems over 3..10 variables rich in binary clauses: 1..3 complete or incomplete cliques of 2..5 (mostly negative, sometimes mixed-polarity) literals written in either literal order, optionally with the at-least-one clause, binary clauses in no clique, repeated binary clauses, longer clauses, and (1 in 4, through ParsePBConstrs) cardinality and PB constraints; 1 CNF case in 5 is an arbitrary random CNF instead (unit clauses, problems decided or refuted at parse time, repeated literals, tautologies, unused variables); the problem is built twice, DetectAtMostOne runs on one copy, and both are evaluated through the public Clause accessors under every assignment; then Solve, CountModels and Minimize on detected copies are compared with the reference. " +
 			"non-trivial = the detection changed the clause list (created a cardinality constraint or removed clauses); distinct by constraint list",
 		Assumptions: []string{"reference truth table of internal/ref", "the problem before detection is evaluated with the same accessor-based evaluator as after"},
 		Floors: map[string]map[string]int64{
